@@ -333,6 +333,32 @@ def d4_overwrite(ctx):
     ctx.decide(GA.is_gate_func(cd), 'R-DOM', 'D4', cd, None, 'is-gate',
                'create_datadir raises when the path exists and overwrite is false, on every path',
                detail='create_datadir no longer is an overwrite gate')
+    # the directory creation is exclusive unless overwrite was asked for: `exists()` + `mkdir()` is check-then-act, and
+    # the plain mkdir (FileExistsError) is what refuses a directory another writer created in between.  mkdir with
+    # exist_ok=True is accepted only where overwrite is known to be true (or exist_ok is `overwrite` itself).
+    from ..pathcond import reach_under
+    from ._trunc import folder
+    nmk = 0
+    for e in ctx.E.primitives(cd):
+        if e.kind != 'MKDIR' or not isinstance(e.node, ast.Call):
+            continue
+        nmk += 1
+        eo = get_arg(e.node, None, 'exist_ok')
+        if eo is None and (dotted(e.node.func) or '') in ('os.makedirs',) and len(e.node.args) > 2:
+            eo = e.node.args[2]
+        inst = 'create_datadir: the directory is created exclusively (mkdir refuses an existing directory) unless overwrite'
+        if eo is None or (isinstance(eo, ast.Constant) and not eo.value):
+            ctx.ok('R-TABLE', 'D4', cd, e.node, 'exclusive-mkdir', inst)
+        elif isinstance(eo, ast.Name) and eo.id == 'overwrite':
+            ctx.ok('R-TABLE', 'D4', cd, e.node, 'exclusive-mkdir', inst + ' (exist_ok=overwrite)')
+        else:
+            g = cfg_of(cd)
+            reach = reach_under(cd, folder({'overwrite': False}, cd))
+            ctx.decide(g.node_for(e.node) not in reach, 'R-TABLE', 'D4', cd, e.node, 'exclusive-mkdir', inst,
+                       detail=f'mkdir(exist_ok={norm(eo)}) is reachable with overwrite=False: a directory that another '
+                              f'writer creates between the exists() test and the mkdir is silently adopted, and the '
+                              f'creator goes on to truncate and rewrite its files although overwrite was not requested')
+    ctx.floor('C16 mkdir sites of create_datadir', nmk, 1)
     ncalls = 0
     for f in ctx.repo.all_funcs():
         for node, callee in ctx.E.callees(f):
